@@ -632,56 +632,76 @@ theorem dot_not_ident (cl : Classes) : identCh cl 46 = false := by
   simp [identCh, isLetterCh, isDigitCh]
 
 theorem tailLoop_stop {cl : Classes} {b : Nat} (hb : identCh cl b = false) (r' : Str) :
-    ∀ (r : Str) (d : Bool) (k : Nat), tailLoop cl (r ++ b :: r') d k = tailLoop cl r d k
-  | [], d, k => by
+    ∀ (r : Str) (k m : Nat), tailLoop cl (r ++ b :: r') k m = tailLoop cl r k m
+  | [], k, m => by
     have h := hb
     simp only [identCh, Bool.or_eq_false_iff] at h
     simp [tailLoop, h.1, h.2]
-  | c :: r, d, k => by
+  | c :: r, k, m => by
     simp only [List.cons_append, tailLoop]
     split
-    · exact tailLoop_stop hb r' r false (k + 1)
+    · exact tailLoop_stop hb r' r (k + 1) (k + 1)
     · split
-      · exact tailLoop_stop hb r' r true (k + 1)
+      · exact tailLoop_stop hb r' r (k + 1) m
       · rfl
 
-theorem tailLoop_bounds {cl : Classes} : ∀ (r : Str) (d : Bool) (k : Nat),
-    k ≤ (tailLoop cl r d k).1 ∧ (tailLoop cl r d k).1 ≤ k + r.length
-  | [], d, k => by simp [tailLoop]
-  | c :: r, d, k => by
+theorem tailLoop_bounds {cl : Classes} : ∀ (r : Str) (k m : Nat), m ≤ k →
+    m ≤ tailLoop cl r k m ∧ tailLoop cl r k m ≤ k + r.length
+  | [], k, m, h => by simp [tailLoop]; omega
+  | c :: r, k, m, h => by
     simp only [tailLoop]
     split
-    · have := tailLoop_bounds (cl := cl) r false (k + 1); simp; omega
+    · have := tailLoop_bounds (cl := cl) r (k + 1) (k + 1) (Nat.le_refl _); simp; omega
     · split
-      · have := tailLoop_bounds (cl := cl) r true (k + 1); simp; omega
-      · simp
+      · have := tailLoop_bounds (cl := cl) r (k + 1) m (by omega); simp; omega
+      · simp; omega
 
-theorem tailLoop_all {cl : Classes} : ∀ (r : Str) (d : Bool) (k : Nat),
-    ∀ c ∈ r.take ((tailLoop cl r d k).1 - k), identCh cl c = true
-  | [], d, k => by simp
-  | x :: r, d, k => by
+theorem tailLoop_all {cl : Classes} : ∀ (r : Str) (k m : Nat), m ≤ k →
+    ∀ c ∈ r.take (tailLoop cl r k m - k), identCh cl c = true
+  | [], k, m, _ => by simp
+  | x :: r, k, m, hm => by
     simp only [tailLoop]
     split
     · rename_i hl
-      have hb := tailLoop_bounds (cl := cl) r false (k + 1)
-      have ih := tailLoop_all (cl := cl) r false (k + 1)
+      have hb := tailLoop_bounds (cl := cl) r (k + 1) (k + 1) (Nat.le_refl _)
+      have ih := tailLoop_all (cl := cl) r (k + 1) (k + 1) (Nat.le_refl _)
       intro c hc
-      have e : (tailLoop cl r false (k + 1)).1 - k = ((tailLoop cl r false (k + 1)).1 - (k + 1)) + 1 := by omega
+      have e : tailLoop cl r (k + 1) (k + 1) - k = (tailLoop cl r (k + 1) (k + 1) - (k + 1)) + 1 := by omega
       rw [e, List.take_succ_cons] at hc
       rcases List.mem_cons.1 hc with e | m
       · subst e; simp [identCh, hl]
       · exact ih c m
     · split
       · rename_i hl hd
-        have hb := tailLoop_bounds (cl := cl) r true (k + 1)
-        have ih := tailLoop_all (cl := cl) r true (k + 1)
+        have ih := tailLoop_all (cl := cl) r (k + 1) m (by omega)
         intro c hc
-        have e : (tailLoop cl r true (k + 1)).1 - k = ((tailLoop cl r true (k + 1)).1 - (k + 1)) + 1 := by omega
-        rw [e, List.take_succ_cons] at hc
-        rcases List.mem_cons.1 hc with e | m
-        · subst e; simp [identCh, hd]
-        · exact ih c m
-      · simp
+        by_cases hle : tailLoop cl r (k + 1) m ≤ k
+        · rw [Nat.sub_eq_zero_of_le hle] at hc; simp at hc
+        · have e : tailLoop cl r (k + 1) m - k = (tailLoop cl r (k + 1) m - (k + 1)) + 1 := by omega
+          rw [e, List.take_succ_cons] at hc
+          rcases List.mem_cons.1 hc with e | m
+          · subst e; simp [identCh, hd]
+          · exact ih c m
+      · intro c hc
+        rw [Nat.sub_eq_zero_of_le hm] at hc; simp at hc
+
+/-- the result is the old `m`, or it ends at a letter: `TailIdentifier` never starts with a digit -/
+theorem tailLoop_letter {cl : Classes} : ∀ (r : Str) (k m : Nat),
+    tailLoop cl r k m = m ∨
+      ∃ j c, tailLoop cl r k m = k + j + 1 ∧ r[j]? = some c ∧ isLetterCh cl c = true
+  | [], _, _ => Or.inl rfl
+  | x :: r, k, m => by
+    simp only [tailLoop]
+    split
+    · rename_i hl
+      rcases tailLoop_letter (cl := cl) r (k + 1) (k + 1) with h | ⟨j, c, h, hg, hc⟩
+      · exact Or.inr ⟨0, x, by rw [h], by simp, hl⟩
+      · exact Or.inr ⟨j + 1, c, by rw [h]; omega, by simpa using hg, hc⟩
+    · split
+      · rcases tailLoop_letter (cl := cl) r (k + 1) m with h | ⟨j, c, h, hg, hc⟩
+        · exact Or.inl h
+        · exact Or.inr ⟨j + 1, c, by rw [h]; omega, by simpa using hg, hc⟩
+      · exact Or.inl rfl
 
 theorem tailIdentifier_suffix (cl : Classes) (s : Str) : tailIdentifier cl s <:+ s := by
   unfold tailIdentifier
@@ -702,10 +722,8 @@ theorem take_append_tailIdentifier (cl : Classes) (s : Str) :
   simp at e
   rw [← e]; exact h
 
-/-- the scanned count of TailIdentifier -/
-def tailCount (cl : Classes) (s : Str) : Nat :=
-  let r := tailLoop cl s.reverse false 0
-  if r.2 then r.1 - 1 else r.1
+/-- the length of the result of TailIdentifier -/
+def tailCount (cl : Classes) (s : Str) : Nat := tailLoop cl s.reverse 0 0
 
 theorem tailIdentifier_eq (cl : Classes) (s : Str) :
     tailIdentifier cl s = s.drop (s.length - tailCount cl s) := by
@@ -716,36 +734,39 @@ theorem tailIdentifier_eq (cl : Classes) (s : Str) :
   · simp only [h]
     rfl
 
-theorem tailCount_def (cl : Classes) (s : Str) : tailCount cl s =
-    if (tailLoop cl s.reverse false 0).2 = true then (tailLoop cl s.reverse false 0).1 - 1
-    else (tailLoop cl s.reverse false 0).1 := rfl
-
 theorem tailCount_le (cl : Classes) (s : Str) : tailCount cl s ≤ s.length := by
-  rw [tailCount_def]
-  have := tailLoop_bounds (cl := cl) s.reverse false 0
+  unfold tailCount
+  have := tailLoop_bounds (cl := cl) s.reverse 0 0 (Nat.le_refl _)
   simp only [List.length_reverse] at this
-  split <;> omega
+  omega
 
 theorem tailIdentifier_all_ident (cl : Classes) (s : Str) :
     ∀ c ∈ tailIdentifier cl s, identCh cl c = true := by
   intro c hc
   rw [tailIdentifier_eq] at hc
-  have hb := tailLoop_bounds (cl := cl) s.reverse false 0
-  simp only [List.length_reverse, Nat.zero_add] at hb
-  have hall := tailLoop_all (cl := cl) s.reverse false 0
+  have hle := tailCount_le cl s
+  have hall := tailLoop_all (cl := cl) s.reverse 0 0 (Nat.le_refl _)
   simp only [Nat.sub_zero] at hall
-  -- n = number of scanned characters
-  generalize hn : (tailLoop cl s.reverse false 0).1 = n at hb hall
-  have hk : tailCount cl s ≤ n := by
-    rw [tailCount_def, hn]; split <;> omega
-  have hmem : c ∈ s.drop (s.length - n) := by
-    have e : s.length - tailCount cl s = (s.length - n) + (n - tailCount cl s) := by omega
-    rw [e, ← List.drop_drop] at hc
-    exact List.mem_of_mem_drop hc
-  have e2 : s.drop (s.length - n) = (s.reverse.take n).reverse := by
+  have e2 : s.drop (s.length - tailCount cl s) = (s.reverse.take (tailCount cl s)).reverse := by
     rw [List.reverse_take]; simp
-  rw [e2, List.mem_reverse] at hmem
-  exact hall c hmem
+  rw [e2, List.mem_reverse] at hc
+  exact hall c hc
+
+/-- `TailIdentifier` returns a valid identifier or nothing: it never starts with a digit -/
+theorem tailIdentifier_head_letter (cl : Classes) (s : Str) (c : Nat) (rest : Str)
+    (h : tailIdentifier cl s = c :: rest) : isLetterCh cl c = true := by
+  rw [tailIdentifier_eq] at h
+  have hle := tailCount_le cl s
+  rcases tailLoop_letter (cl := cl) s.reverse 0 0 with h0 | ⟨j, x, hj, hg, hx⟩
+  · have : tailCount cl s = 0 := h0
+    rw [this] at h; simp at h
+  · have hc : tailCount cl s = j + 1 := by unfold tailCount; omega
+    have hget : (s.drop (s.length - tailCount cl s))[0]? = some c := by rw [h]; rfl
+    rw [List.getElem?_drop, hc] at hget
+    rw [List.getElem?_reverse (by rw [hc] at hle; omega)] at hg
+    have : s.length - 1 - j = s.length - (j + 1) + 0 := by omega
+    rw [this, hget] at hg
+    cases hg; exact hx
 
 /-- TailIdentifier only looks at the text after the last non-identifier character -/
 theorem tailIdentifier_append {cl : Classes} {pre w : Str} (hw : w ≠ [])
@@ -754,7 +775,7 @@ theorem tailIdentifier_append {cl : Classes} {pre w : Str} (hw : w ≠ [])
   rcases hpre with rfl | ⟨p, b, rfl, hb⟩
   · simp
   · have hc : tailCount cl (p ++ [b] ++ w) = tailCount cl w := by
-      rw [tailCount_def, tailCount_def]
+      unfold tailCount
       have : (p ++ [b] ++ w).reverse = w.reverse ++ b :: p.reverse := by simp
       rw [this, tailLoop_stop hb]
     rw [tailIdentifier_eq, tailIdentifier_eq, hc]
